@@ -49,6 +49,8 @@ ENTITIES = {
     "OWNER": ([], [("oname", STR, False, False), ("items", agg(ref("ITEM"), 0, None, "SET"), False, False),
                    ("first", ref("ITEM"), True, False)]),
     "ITEM": ([], [("iname", STR, False, False)]),
+    "NODE": ([], [("nlabel", STR, False, False), ("next", ref("NODE"), True, False),
+                  ("others", agg(ref("NODE")), False, False)]),
 }
 ABSTRACT = {"BASE"}
 # attributes redeclared as DERIVE in a subtype: (entity, supertype attr) -> written as '*'
@@ -57,13 +59,39 @@ DERIVED_IN = {("DPOINT", "tag")}
 COMPLEX_LEGAL = [["BASE", "EXTRA", "LEFTY"], ["BASE", "EXTRA", "RIGHTY"]]
 
 
-def all_attrs(ent):
+class Schema:
+    def __init__(self, name, entities, abstract=(), derived_in=(), complex_legal=(), weights=None, inverses=None):
+        self.name = name
+        self.ENTITIES = entities
+        self.ABSTRACT = set(abstract)
+        self.DERIVED_IN = set(derived_in)
+        self.COMPLEX_LEGAL = list(complex_legal)
+        self.weights = weights or {}
+        self.INVERSES = inverses or {}
+
+    def all_attrs(self, ent):
+        return all_attrs(ent, self.ENTITIES)
+
+    def supertypes(self, ent):
+        out = []
+        for s_ in self.ENTITIES[ent][0]:
+            out.append(s_)
+            out += self.supertypes(s_)
+        return out
+
+    def isa(self, ent, target):
+        return ent == target or target in self.supertypes(ent)
+
+
+def all_attrs(ent, entities=None):
     """inherited-then-own explicit attributes in Part 21 order, each (owner, name, type, optional, derived)"""
+    if entities is None:
+        entities = ENTITIES
     seen = []
     out = []
 
     def rec(e):
-        sups, own = ENTITIES[e]
+        sups, own = entities[e]
         for s in sups:
             rec(s)
         if e in seen:
@@ -75,11 +103,15 @@ def all_attrs(ent):
     return out
 
 
+VERIF_ALL = None  # set below
+
+
 class Gen:
-    def __init__(self, rnd, fancy=True):
+    def __init__(self, rnd, fancy=True, schema=None):
         self.r = rnd
         self.fancy = fancy
         self.comments_ok = True
+        self.S = schema or VERIF_ALL
 
     # ---- scalar literals: canonical value + source spelling
     def g_int(self):
@@ -213,25 +245,30 @@ class Gen:
             cur += 1 if not sparse_ids else r.choice([1, 1, 2, 7, 93, 997])
         # choose entity kinds; referenced kinds first in id order but emitted shuffled later (forward refs)
         kinds = []
-        concrete = [e for e in ENTITIES if e not in ABSTRACT]
+        S = self.S
+        concrete = [e for e in S.ENTITIES if e not in S.ABSTRACT]
         for i in ids:
             x = r.random()
-            if x < 0.3:
-                kinds.append("POINT")
-            elif x < 0.36:
-                kinds.append("ITEM")
-            elif x < 0.44:
-                kinds.append("COMPLEX")
-            else:
-                kinds.append(r.choice(concrete))
+            acc = 0.0
+            chosen = None
+            for kname, w in S.weights.items():
+                acc += w
+                if x < acc:
+                    chosen = kname
+                    break
+            if chosen == "COMPLEX" and not S.COMPLEX_LEGAL:
+                chosen = None
+            kinds.append(chosen or r.choice(concrete))
         ids_by_ent = {}
         for i, k in zip(ids, kinds):
             if k != "COMPLEX":
                 ids_by_ent.setdefault(k, []).append(i)
+                for sup in self.S.supertypes(k):
+                    ids_by_ent.setdefault(sup, []).append(i)
         insts = []
         for i, k in zip(ids, kinds):
             if k == "COMPLEX":
-                combo = list(r.choice(COMPLEX_LEGAL))
+                combo = list(r.choice(self.S.COMPLEX_LEGAL))
                 order = combo[:]
                 if self.fancy:
                     r.shuffle(order)
@@ -245,20 +282,20 @@ class Gen:
             else:
                 res = self.record_values(k, ids_by_ent)
                 if res[0] is None:
-                    res = self.record_values("POINT", ids_by_ent)
-                    k = "POINT"
+                    k = self.S.fallback
+                    res = self.record_values(k, ids_by_ent)
                 ps, tk = res
                 insts.append({"id": i, "complex": False, "parts": [(k, ps)], "toks": [k, "("] + tk + [")"]})
         return insts
 
     def record_values(self, ent, ids_by_ent, own_only=False):
         r = self.r
-        attrs = [(ent, n, t, o, d) for (n, t, o, d) in ENTITIES[ent][1]] if own_only else all_attrs(ent)
+        attrs = [(ent, n, t, o, d) for (n, t, o, d) in self.S.ENTITIES[ent][1]] if own_only else self.S.all_attrs(ent)
         ps, toks = [], []
         for (owner, n, t, opt, der) in attrs:
             if toks:
                 toks.append(",")
-            if (ent, n) in DERIVED_IN:
+            if (ent, n) in self.S.DERIVED_IN:
                 ps.append(("star",))
                 toks.append("*")
                 continue
@@ -296,7 +333,8 @@ class Gen:
             return r.choice(["/* c */", "/**/", "/* ( */", "/* , */"])
         return " "
 
-    def render(self, insts, schema="VERIF_ALL", shuffle=True, header=None, comments_in_records=True):
+    def render(self, insts, schema=None, shuffle=True, header=None, comments_in_records=True):
+        schema = schema or self.S.name
         r = self.r
         out = ["ISO-10303-21;\nHEADER;\n"]
         out.append(header or ("FILE_DESCRIPTION(('descr one','d2'),'2;1');\n"
@@ -323,3 +361,26 @@ class Gen:
             out.append(line)
         out.append("ENDSEC;\nEND-ISO-10303-21;\n")
         return "".join(out).encode("latin-1"), order
+
+
+VERIF_ALL = Schema("VERIF_ALL", ENTITIES, ABSTRACT, DERIVED_IN, COMPLEX_LEGAL,
+                   weights={"POINT": 0.3, "ITEM": 0.06, "COMPLEX": 0.08},
+                   inverses={"ITEM": [("owned_by", "OWNER", "items", True)]})
+VERIF_ALL.fallback = "POINT"
+
+# schemas/verif_inv.exp : several inverse attributes per entity, inherited inverses, inverses onto the same
+# entity through different attributes, aggregate and single-valued inverted attributes, a single-valued inverse
+INV_ENTITIES = {
+    "PART": ([], [("pname", STR, False, False)]),
+    "SPECIAL_PART": (["PART"], [("grade", INT, False, False)]),
+    "ASSEMBLY": ([], [("aname", STR, False, False), ("components", agg(ref("PART")), False, False),
+                      ("main_part", ref("PART"), True, False), ("spare", ref("PART"), True, False)]),
+    "SUB_ASSEMBLY": (["ASSEMBLY"], [("level", INT, False, False)]),
+    "DOCUMENTATION": ([], [("about", ref("PART"), False, False), ("text", STR, False, False)]),
+    "CERTIFICATE": ([], [("subject", ref("SPECIAL_PART"), False, False), ("other", ref("PART"), True, False)]),
+}
+VERIF_INV = Schema("VERIF_INV", INV_ENTITIES, weights={"PART": 0.25, "SPECIAL_PART": 0.15},
+                   inverses={"PART": [("used_in", "ASSEMBLY", "components", True), ("main_of", "ASSEMBLY", "main_part", True),
+                                      ("doc", "DOCUMENTATION", "about", False)],
+                             "SPECIAL_PART": [("certified_by", "CERTIFICATE", "subject", True)]})
+VERIF_INV.fallback = "PART"
